@@ -5,6 +5,8 @@ whichever worker the schedule hands that item to; all interleavings are explored
 the stage must raise to its caller in every terminal state, and from every reachable state
 a terminal state must be reachable (no waiting forever).
 """
+import os
+
 from vt import par, stages
 from vt.fixtures import quiet
 from vt.harness import Part, Report
@@ -19,6 +21,21 @@ SIX_SEEDED = [
     (1, 0, 0), (2, 0, 0), (3, 0, 0), (2, 1, 0), (3, 2, 0), (2, 0, 1), (3, 0, 2), (2, 1, 1), (3, 2, 2),
     (1, 1, 0), (2, 2, 0), (3, 4, 0), (2, 3, 0), (3, 6, 0),
 ]
+
+
+def _ten_seeded():
+    acc = []
+    for (px, py) in [(0, 0), (1, 0), (0, 1)]:
+        acc.append((1, px, py))
+        for j in (0, 1):
+            for i in (0, 1):
+                t = (2, 2 * px + i, 2 * py + j)
+                if len([a for a in acc if a[0] == 2]) < 10:
+                    acc += [t, (3, 2 * t[1], 2 * t[2])]
+    return acc
+
+
+TEN_SEEDED = _ten_seeded()
 
 
 def configs(tier):
@@ -43,6 +60,10 @@ def configs(tier):
         cfgs.append(S.VisitLeaves(kind="generic", depth=1, W=2, fail_item=item, fail_exc=e))
     for item, e in zip([(1, 0, 0), (1, 1, 1), (0, 0, 0)], EX):
         cfgs.append(S.Transform(depth=1, W=2, fail_item=item, fail_exc=e))
+    # abrupt death of a worker (SIGKILL / OOM killer) while it handles an item
+    cfgs.append(S.VisitLeaves(kind="generic", depth=1, W=2, fail_item=(1, 1, 0), fail_exc="kill"))
+    cfgs.append(S.Transform(depth=1, W=2, fail_item=(1, 0, 1), fail_exc="kill"))
+    cfgs.append(S.Walk(kind="filtered", depth=2, W=2, accepted=WALK3, fail_item=(1, 1, 1), fail_exc="kill"))
     for i, e in zip(range(2), ["oserror", "valueerror"]):
         cfgs.append(S.MultiTan(nimg=2, W=2, fail_item=(i,), fail_exc=e))
         cfgs.append(S.MultiWcs(nimg=2, W=2, fail_item=(i,), fail_exc=EX[(i + 2) % 3]))
@@ -54,6 +75,11 @@ def configs(tier):
         cfgs.append(S.Walk(kind="filtered", depth=2, W=2, accepted=S.FILTER_5LEAVES, fail_item=(1, 1, 1), fail_exc=ex()))
         for item in [(2, 3, 0), (1, 0, 0), (1, 1, 0)]:
             cfgs.append(S.Walk(kind="filtered", depth=3, W=2, accepted=SIX_SEEDED, fail_item=item, fail_exc=ex()))
+        # more ready tiles than the done queue plus a one-item pipe can absorb: the abort path must not wait
+        # for queues that nobody drains any more
+        cfgs.append(S.Walk(kind="filtered", depth=3, W=2, accepted=TEN_SEEDED, fail_item=(2, 0, 0), pipe_capacity=1))
+        cfgs.append(S.Walk(kind="generic", depth=2, W=2, fail_item=(1, 0, 0), fail_exc="kill"))
+        cfgs.append(S.MultiTan(nimg=2, W=2, fail_item=(1,), fail_exc="kill"))
         for item in [(1, 0, 0), (1, 1, 1)]:
             for e in EX:
                 cfgs.append(S.VisitLeaves(kind="generic", depth=1, W=3, fail_item=item, fail_exc=e))
@@ -75,6 +101,8 @@ def configs(tier):
 def serial_reference(cfg):
     """Serial mode must raise to the caller (the reference behaviour)."""
     part = Part()
+    if cfg.fail_exc == "kill":
+        return part  # killing the only process is not an outcome the caller could observe
     part.case(nontrivial=True)
     kw = dict(cfg.describe())
     kw.pop("stage")
@@ -140,9 +168,131 @@ def _serial_entry(h):
             shutil.rmtree(root, ignore_errors=True)
 
 
+# --- an I/O error while a tile's inputs are read is an error while processing that tile -----------
+
+_REAL_LOAD = []
+
+
+class ReadFault(object):
+    """Makes ImageLoader.load_path fail once with an OSError for one (existing) tile file."""
+
+    def __init__(self, suffix, errno_):
+        self.suffix = suffix
+        self.errno = errno_
+
+    def __enter__(self):
+        from toasty import image
+
+        if not _REAL_LOAD:
+            _REAL_LOAD.append(image.ImageLoader.load_path)
+        real = _REAL_LOAD[0]
+        suffix, en = self.suffix, self.errno
+
+        def load_path(loader, path):
+            if path.endswith(suffix) and os.path.exists(path):
+                if en is None:
+                    raise OSError("injected: cannot identify image file %r" % path)
+                raise OSError(en, os.strerror(en), path)
+            return real(loader, path)
+
+        image.ImageLoader.load_path = load_path
+        return self
+
+    def __exit__(self, *a):
+        from toasty import image
+
+        image.ImageLoader.load_path = _REAL_LOAD[0]
+
+
+def read_fault_serial(part):
+    """Serial cascade: an OSError (EMFILE, EIO, unreadable file) while reading an existing child must
+    reach the caller; it must not be mistaken for 'tile missing'."""
+    import shutil
+    from toasty.merge import cascade_images, averaging_merger
+    from toasty.pyramid import PyramidIO
+    from checks import c02
+
+    with stages_scratch() as d:
+        for child in range(4):
+            for en in (24, 5, 13, None):
+                cfg = {"read_fault": True, "child": child, "errno": en}
+                part.case(nontrivial=True)
+                root = os.path.join(d, "rf")
+                shutil.rmtree(root, ignore_errors=True)
+                pio = PyramidIO(root, default_format="npy")
+                leaves = {pos: c02.leaf(k, "npy-F32") for k, pos in enumerate(c02.population_positions((0, 1, 2, 3), 1))}
+                with quiet():
+                    c02.write_leaves(pio, leaves, "npy")
+                suffix = os.path.join("1", str(child // 2), "%d_%d.npy" % (child // 2, child % 2))
+                try:
+                    with quiet(), ReadFault(suffix, en):
+                        cascade_images(pio, 1, averaging_merger, parallel=1)
+                    part.violation("cascade/read-error-swallowed/serial", "%r: cascade_images returned normally although reading child %s failed with OSError(errno=%r)" % (cfg, suffix, en), cfg)
+                except OSError:
+                    pass
+                except Exception:
+                    pass  # any visible failure satisfies the property
+
+
+def stages_scratch():
+    from vt.fixtures import scratch
+
+    return scratch("c19rf")
+
+
+class ReadFaultCascade(stages.StageHarness):
+    """Parallel cascade (2 workers) with a read fault, all interleavings: the stage must raise."""
+
+    stage = "cascade_read_fault"
+    io_points = False
+
+    def expected_items(self):
+        return []
+
+    def fresh(self):
+        import tempfile
+        from toasty.merge import cascade_images, averaging_merger
+        from toasty.pyramid import PyramidIO
+        from checks import c02
+        from vt.monitors import Monitor
+
+        root = tempfile.mkdtemp(prefix="verif-c19rf-", dir=stages.scratch_root())
+        pio = PyramidIO(root, default_format="npy")
+        leaves = {pos: c02.leaf(k, "npy-F32") for k, pos in enumerate(c02.population_positions((0, 1, 2, 3), 1))}
+        with quiet():
+            c02.write_leaves(pio, leaves, "npy")
+        self._fault = ReadFault(os.path.join("1", "1", "1_0.npy"), self.errno)
+        self._fault.__enter__()
+
+        def main():
+            cascade_images(pio, 1, averaging_merger, parallel=2)
+
+        return main, Monitor(), root
+
+    def cleanup(self, root):
+        import shutil
+
+        self._fault.__exit__()
+        shutil.rmtree(root, ignore_errors=True)
+
+    def at_terminal(self, sched, mon):
+        main = sched.main()
+        if main.outcome[0] == "return":
+            return [("returns-normally-after-read-error", "parallel cascade returned normally although reading a child failed with OSError(errno=%r)" % (self.errno,))], ("return",)
+        return [], ("raise", main.outcome[1])
+
+
+stages.HARNESSES["ReadFaultCascade"] = ReadFaultCascade
+
+
 def _work(cfg):
+    if cfg == "read-fault-serial":
+        part = Part()
+        read_fault_serial(part)
+        return part
     part = stages.explore_to_part(cfg, PROP)
-    part.merge(serial_reference(cfg))
+    if not isinstance(cfg, ReadFaultCascade):
+        part.merge(serial_reference(cfg))
     return part
 
 
@@ -155,14 +305,23 @@ def run(tier, seed):
     )
     rep.assumptions = stages.ASSUMPTIONS + ["single fault: exactly one item fails per run; at least two workers (parallel=1 selects the serial path)"]
     cfgs = configs(tier)
+    cfgs.append(ReadFaultCascade(errno=24, W=2))
+    if tier == "thorough":
+        cfgs.append(ReadFaultCascade(errno=None, W=2))
     for c in cfgs:
         c.seed = seed
-    par.pmap(_work, cfgs, rep)
+    par.pmap(_work, cfgs + ["read-fault-serial"], rep)
     stages.finish_model_report(rep)
     return rep.finish()
 
 
 def replay(payload):
+    if payload["replay"].get("read_fault"):
+        p = Part()
+        read_fault_serial(p)
+        for sig in p.violations:
+            print("REPLAY-FAIL", sig)
+        return 1 if p.violations else 0
     if payload["replay"].get("serial"):
         cfgd = dict(payload["replay"]["config"])
         cls = stages.HARNESSES[{"walk": "Walk", "visit_leaves": "VisitLeaves", "transform": "Transform", "multi_tan": "MultiTan", "multi_wcs": "MultiWcs"}[cfgd.pop("stage")]]
